@@ -25,7 +25,7 @@ ALIASES = {
 BUILTINS = ('len', 'range', 'abs', 'isinstance', 'enumerate', 'list', 'set', 'int', 'float', 'iter', 'str',
             'print', 'tuple', 'min', 'max', 'sum', 'zip', 'object', 'type', 'hasattr', 'getattr', 'id', 'any', 'all', 'frozenset', 'bool', 'sorted', 'setattr', 'reversed', 'vars',
             'ValueError', 'TypeError', 'KeyError', 'NotImplementedError', 'AssertionError', 'ImportError',
-            'DeprecationWarning', 'Exception', 'dict')
+            'DeprecationWarning', 'Exception', 'dict', 'slice', 'repr', 'complex', 'bytes')
 
 
 def builtin(name):
@@ -275,6 +275,9 @@ def np_broadcast(ip, args, kwargs, node):
 def np_fill(value):
     def g(ip, args, kwargs, node):
         a = ip.fresh_array(N.NF.const(value))
+        shp = args[0] if args else kwargs.get('shape')
+        if isinstance(shp, Seq) and shp.kind in ('tuple', 'list') and len(shp.items) >= 2 and all(isinstance(i, Num) for i in shp.items):
+            a.dims = tuple(i.t for i in shp.items)       # np.zeros((length, rank, rank)): the shape is known axis by axis
         fn_ = getattr(node, 'func', None)
         if isinstance(fn_, ast.Attribute) and fn_.attr.endswith('_like') and args and 'dtype' not in kwargs:
             a.dtype_like = args[0]      # zeros_like(x) / ones_like(x): dtype of x
@@ -387,6 +390,15 @@ def np_copy(ip, args, kwargs, node):
         return Seq(list(x.items), 'list')
     if isinstance(x, Obj):
         raise Unsupported('np.copy/np.array of an object', node)
+    if ip.has_cells(x):
+        b = x
+        while isinstance(b, View):
+            b = b.base
+        a = ip.fresh_array(b.t)
+        a.cells = dict(b.cells)         # a copy of a stack of matrices keeps every concretely stored pair function
+        if getattr(b, 'dims', None) is not None:
+            a.dims = b.dims
+        return a
     t, k = ip.term_of(x, node)
     return ip.fresh_array(t)
 
@@ -423,8 +435,29 @@ def np_arange(ip, args, kwargs, node):
     n = (hi - lo) / st
     int_step = all(_is_integer_valued(x) for x in (lo, st, hi))
     if int_step:
-        return ip.fresh_array(lo + st * N.fn('iota', n))
-    return ip.fresh_array(N.fn('farange', lo, hi, st))
+        r = ip.fresh_array(lo + st * N.fn('iota', n))
+    else:
+        r = ip.fresh_array(N.fn('farange', lo, hi, st))
+    if args and all(ip.inty(a) for a in args) and 'dtype' not in kwargs:
+        r.inty = True           # arange of Python ints is an integer array
+    return r
+
+
+def np_reciprocal(ip, args, kwargs, node):
+    """np.reciprocal keeps the dtype of its argument: on an integer array it is the *integer* reciprocal (1 for 1, 0 for
+    everything larger), not 1/x"""
+    out, extra = _out_arg(args, kwargs, 1)
+    if extra or not args:
+        raise Unsupported('np.reciprocal with keywords %s' % extra, node)
+    x = args[0]
+    t, k = ip.term_of(x, node)
+    r = _apply(lambda y: N.NF.const(1) / y, t, node)
+    if ip.inty(x):
+        ip.event('int-reciprocal', getattr(x, 'origin', None), node)
+        r = _apply(lambda y: N.fn('int_trunc', y), r, node)
+    if out is not None:
+        return _write_out(ip, out, r, node)
+    return ip.make_result(r, k)
 
 
 def _is_integer_valued(x):
@@ -465,7 +498,9 @@ def np_reduce(name):
     def g(ip, args, kwargs, node):
         x = args[0]
         if isinstance(x, Mask):
-            m = Mask(P.Cond.flag('%s(%s)' % (name, x.cond.show())), 'scalar')
+            fname = '%s(%s)' % (name, x.cond.show())
+            m = Mask(P.Cond.flag(fname), 'scalar')
+            ip.reduce_flags[fname] = (name, x.cond)      # the decision `all(c)` taken as True means c holds at every point
             return m
         t, k = ip.term_of(x, node)
         if P.is_pw(t):
@@ -731,6 +766,12 @@ def deepcopy(ip, args, kwargs, node):
             if key in memo:
                 return memo[key]
             a = Arr(v.t, None, ip)
+            if v.cells:
+                a.cells = dict(v.cells)
+            if getattr(v, 'dims', None) is not None:
+                a.dims = v.dims
+            if getattr(v, 'inty', False):
+                a.inty = True
             memo[key] = a
             return a
         if isinstance(v, View):
@@ -738,6 +779,8 @@ def deepcopy(ip, args, kwargs, node):
             return Arr(t, None, ip)
         if isinstance(v, Seq):
             return Seq([cp(x) for x in v.items], v.kind)
+        if isinstance(v, dict):
+            return {k_: cp(x) for k_, x in v.items()}        # the contents of a dict object
         return v
     return cp(args[0])
 
@@ -874,8 +917,16 @@ def same_length(ip, n, t):
     return any(x.equals(c) for x in mine for c in cands)
 
 
+def _dims_of(arr):
+    while isinstance(arr, View) and arr.idx == ('all',):
+        arr = arr.base
+    return getattr(arr, 'dims', None) if isinstance(arr, Arr) else None
+
+
 def shape_len(ip, sh, node):
     arr = sh.attrs['arr']
+    if _dims_of(arr) is not None:
+        return const_num(len(_dims_of(arr)))
     t, _ = ip.term_of(arr, node)
     nd = ndim_of(ip, t)
     if nd is not None:
@@ -996,6 +1047,38 @@ def np_size(ip, args, kwargs, node):
     raise Unsupported('np.size of %r' % (x,), node)
 
 
+def b_slice(ip, args, kwargs, node):
+    """slice(None) / slice(a, b): a slice object used as a subscript later on"""
+    parts = [None if (isinstance(a, Const) and a.v is None) else a for a in args]
+    if len(parts) == 1:
+        parts = [None, parts[0], None]
+    while len(parts) < 3:
+        parts.append(None)
+    c = Const(('sliceobj',))
+    c.slice_parts = tuple(parts)
+    return c
+
+
+def np_ndim(ip, args, kwargs, node):
+    x = args[0]
+    if isinstance(x, Num) and x.kind == 'scalar':
+        return const_num(0)
+    if isinstance(x, Const) and isinstance(x.v, (int, float, bool)):
+        return const_num(0)
+    if isinstance(x, Seq):
+        if all(isinstance(i, (Num, Const)) for i in x.items):
+            return const_num(1)
+        raise Unsupported('np.ndim of a nested sequence', node)
+    if isinstance(x, (Arr, View, Num)):
+        t, k = ip.term_of(x, node)
+        nd = ndim_of(ip, t)
+        if nd is None and not P.is_pw(t) and ip.lead_kinds(t) <= {'curve', 'file'} and ip.lead_kinds(t):
+            nd = 1
+        if nd is not None:
+            return const_num(nd)
+    raise Unsupported('np.ndim of %r' % (x,), node)
+
+
 class _FInfo(object):
     pass
 
@@ -1048,6 +1131,8 @@ def b_set(ip, args, kwargs, node):
         for w in out:
             if isinstance(v, Const) and isinstance(w, Const):
                 dup = v.v == w.v
+            elif isinstance(v, Seq) or isinstance(w, Seq):
+                dup = _dict_key(v, node) == _dict_key(w, node)      # tuples of hashable elements
             elif ip.is_numeric(v) and ip.is_numeric(w):
                 tv, tw = ip.term_of(v, node)[0], ip.term_of(w, node)[0]
                 dup = not P.is_pw(tv) and not P.is_pw(tw) and tv.equals(tw)
@@ -1148,11 +1233,21 @@ def b_type(ip, args, kwargs, node):
             return Lib('builtins.float')
         if _is_integer_valued(x.t):
             return Lib('builtins.int')
-        raise Unsupported('type() of a symbolic number (int or float is not known)', node)
+        # a number the caller passed: a Python int or a Python float -- which one is a data condition (Interp.compare)
+        r = Lib('builtins.<number>')
+        r.of = x.t
+        return r
     if isinstance(x, Seq) and x.kind in ('list', 'tuple', 'set', 'frozenset'):
         return Lib('builtins.' + x.kind)
+    if isinstance(x, Seq):
+        return Lib('numpy.ndarray' if x.kind == 'ndarray' else 'builtins.' + x.kind)
     if isinstance(x, (Arr, View)):
-        return Lib('numpy.ndarray')
+        st = getattr(x, 'seqtype', None)
+        return Lib('builtins.' + st) if st else Lib('numpy.ndarray')
+    if isinstance(x, Obj) and isinstance(x.cls, str) and x.cls not in ('dict',):
+        return Lib('opaque.' + x.cls)        # an object of some class outside the package (a payload, a library object)
+    if isinstance(x, Obj) and x.cls == 'dict':
+        return Lib('builtins.dict')
     raise Unsupported('type(%r)' % (x,), node)
 
 
@@ -1196,7 +1291,47 @@ def b_sorted(ip, args, kwargs, node):
         if isinstance(rv, Const) and rv.v:
             items.reverse()
         return Seq(items, 'list')
+    if isinstance(x, Seq) and x.items and all(isinstance(i, Seq) and i.items and isinstance(i.items[0], Const) and
+                                             isinstance(i.items[0].v, str) for i in x.items):
+        # (name, value) records with pairwise different names -- sorted(vars(o).items()): the first field decides
+        names = [i.items[0].v for i in x.items]
+        if len(set(names)) == len(names):
+            items = sorted(take_items(x), key=lambda i: i.items[0].v)
+            rv = kwargs.get('reverse')
+            if isinstance(rv, Const) and rv.v:
+                items.reverse()
+            return Seq(items, 'list')
     raise Unsupported('sorted(%r)' % (x,), node)
+
+
+def _repr_key(ip, x, node):
+    """structural stand-in for repr(x): two values have the same key iff Python prints them alike, with symbolic numbers in
+    generic position (different terms print differently)"""
+    if isinstance(x, Const):
+        if getattr(x, 'slice_parts', None) is not None or isinstance(x.v, tuple):
+            raise Unsupported('repr of %r' % (x,), node)
+        return ('c', x.v)
+    if isinstance(x, Num) and x.kind == 'scalar' and not P.is_pw(x.t):
+        return ('n', N.reg(x.t))
+    if isinstance(x, Seq) and x.kind in ('list', 'tuple'):
+        return (x.kind,) + tuple(_repr_key(ip, i, node) for i in x.items)
+    if isinstance(x, Obj) and x.cls == 'dict':
+        return ('dict',) + tuple((k_, _repr_key(ip, v_, node)) for k_, v_ in x.attrs['items'].items())
+    if isinstance(x, Func):
+        return ('function', id(x))            # <function ... at 0x...>: one text per function object
+    if isinstance(x, Obj) and isinstance(x.cls, ClassInfo):
+        if x.cls.find_method('__repr__') is None and x.cls.find_method('__str__') is None:
+            return ('object', x.oid)          # <pkg.Class object at 0x...>: one text per object
+        raise Unsupported('repr() of an object whose class formats itself (%s.__repr__)' % x.cls.name, node)
+    if isinstance(x, ClassRef):
+        return ('class', x.cls.qualname)
+    raise Unsupported('repr of %r' % (x,), node)
+
+
+def b_repr(ip, args, kwargs, node):
+    if len(args) != 1:
+        raise Raised('TypeError', 'repr() takes exactly one argument', ip.loc(node))
+    return Const(('<repr>', _repr_key(ip, args[0], node)))
 
 
 def b_zip(ip, args, kwargs, node):
@@ -1524,8 +1659,8 @@ CALLS = {
     'itertools.product': it_product, 'itertools.combinations': it_combinations(False),
     'itertools.combinations_with_replacement': it_combinations(True),
     'warnings.warn': w_warn,
-    'builtins.len': b_len, 'builtins.range': b_range, 'builtins.abs': b_abs, 'builtins.sum': b_sum, 'builtins.setattr': b_setattr, 'builtins.vars': b_vars, 'builtins.type': b_type, 'numpy.isclose': np_isclose,
-    'numpy.testing.assert_allclose': np_assert_allclose, 'numpy.ascontiguousarray': np_asarray, 'numpy.asfortranarray': np_copy, 'builtins.zip': b_zip, 'builtins.reversed': b_reversed, 'builtins.sorted': b_sorted, 'numpy.size': np_size, 'numpy.finfo': np_finfo, 'numpy.identity': np_identity, 'numpy.eye': np_identity,
+    'builtins.len': b_len, 'builtins.range': b_range, 'builtins.abs': b_abs, 'builtins.sum': b_sum, 'builtins.setattr': b_setattr, 'builtins.vars': b_vars, 'builtins.slice': b_slice, 'builtins.repr': b_repr, 'builtins.type': b_type, 'numpy.isclose': np_isclose,
+    'numpy.testing.assert_allclose': np_assert_allclose, 'numpy.ascontiguousarray': np_asarray, 'numpy.asfortranarray': np_copy, 'builtins.zip': b_zip, 'builtins.reversed': b_reversed, 'builtins.sorted': b_sorted, 'numpy.size': np_size, 'numpy.ndim': np_ndim, 'numpy.reciprocal': np_reciprocal, 'numpy.finfo': np_finfo, 'numpy.identity': np_identity, 'numpy.eye': np_identity,
     'operator.lt': op_fn('cmp', 'Lt'), 'operator.le': op_fn('cmp', 'LtE'), 'operator.gt': op_fn('cmp', 'Gt'), 'operator.ge': op_fn('cmp', 'GtE'),
     'operator.eq': op_fn('cmp', 'Eq'), 'operator.ne': op_fn('cmp', 'NotEq'), 'operator.add': op_fn('bin', 'Add'), 'operator.sub': op_fn('bin', 'Sub'),
     'operator.mul': op_fn('bin', 'Mult'), 'operator.truediv': op_fn('bin', 'Div'), 'builtins.max': b_minmax('max'), 'builtins.min': b_minmax('min'),
@@ -1650,11 +1785,16 @@ def reshape_term(ip, t, kindname, n, node=None):
 
 def shape_getitem(ip, o, args, kwargs, node):
     arr = o.attrs['arr']
-    t, _ = ip.term_of(arr, node)
     i = args[0]
     if not is_const_num(i):
         raise Unsupported('symbolic shape index', node)
     i = int(num_value(i))
+    dims = _dims_of(arr)
+    if dims is not None and ip.has_cells(arr):
+        if -len(dims) <= i < len(dims):
+            return Num(dims[i], 'scalar')
+        raise Raised('IndexError', 'tuple index out of range', ip.loc(node))
+    t, _ = ip.term_of(arr, node)
     if P.is_pw(t):
         t = next(P.leaves(t))
     nd = ndim_of(ip, t)
@@ -1676,6 +1816,7 @@ def shape_getitem(ip, o, args, kwargs, node):
 def seq_attr(ip, o, name, node):
     if name == 'append':
         def app(ip2, s, a, k, n):
+            ip2.touch(s, 'w', n)
             s.items.append(a[0])
             return NONE
         return Native('list.append', app, o)
@@ -1707,6 +1848,7 @@ def seq_attr(ip, o, name, node):
                 raise Unsupported('set membership with symbolic equality', n)
 
         def setop(ip2, s, a, k, n):
+            ip2.touch(s, 'w', n)
             items = a[0].items if name == 'update' and isinstance(a[0], Seq) else [a[0]]
             for it in items:
                 present = [w for w in s.items if same(ip2, it, w, n)]
@@ -1786,26 +1928,38 @@ def dictcomp(ip, node, env):
 
 
 def listcomp(ip, node, env):
-    if len(node.generators) != 1:
-        raise Unsupported('nested list comprehension', node)
-    g = node.generators[0]
-    it = ip.eval(g.iter, env)
-    if isinstance(it, Obj):
-        m = ip.find_method(it, '__iter__')
-        if m is not None:
-            it = ip.call(m, [], {}, node)
-    if isinstance(it, Obj) and it.cls == 'dict':
-        it = Seq([Const(k) for k in it.attrs['items']], 'list')
-    if not isinstance(it, Seq):
-        raise Unsupported('list comprehension over %r' % (it,), node)
     from .interp import Env
     out = []
-    for x in it.items:
-        e2 = Env(env)
-        ip.assign(g.target, x, e2, node)
-        if all(ip.truth(ip.eval(c, e2), node) for c in g.ifs):
-            out.append(ip.eval(node.elt, e2))
+
+    def level(i, env_):
+        if i == len(node.generators):
+            out.append(ip.eval(node.elt, env_))
+            return
+        g = node.generators[i]
+        if getattr(g, 'is_async', 0):
+            raise Unsupported('async comprehension', node)
+        it = ip.eval(g.iter, env_)
+        if isinstance(it, Obj):
+            m = ip.find_method(it, '__iter__')
+            if m is not None:
+                it = ip.call(m, [], {}, node)
+        if isinstance(it, Obj) and it.cls == 'dict':
+            it = Seq([_key_value(it, k) for k in it.attrs['items']], 'list')
+        if isinstance(it, Types):
+            it = types_iter(ip, it)
+        if not isinstance(it, Seq):
+            raise Unsupported('comprehension over %r' % (it,), node)
+        for x in take_items(it):
+            e2 = Env(env_)
+            ip.assign(g.target, x, e2, node)
+            if all(ip.truth(ip.eval(c, e2), node) for c in g.ifs):
+                level(i + 1, e2)
+    level(0, env)
     return Seq(out, 'list')
+
+
+def setcomp(ip, node, env):
+    return b_set(ip, [listcomp(ip, node, env)], {}, node)
 
 
 def _dict_key(k, node):
@@ -1834,16 +1988,53 @@ def _key_value(o, hk):
     return kv[hk] if hk in kv else Const(hk)
 
 
+def _by_label(ip, o, key, node):
+    """a dictionary filled as `for t in types: d[t] = f(t)` (one symbolic iteration that stands for every type) is the map
+    t -> f(t): reading it under another type label gives f of that label"""
+    bl = o.attrs.get('by_label')
+    if not bl or not isinstance(key, Label) or len(bl) != 1:
+        return None
+    (name, value), = bl.items()
+    cache = o.attrs.setdefault('by_label_cache', {})
+    if key.name in cache:
+        return cache[key.name]
+    from .interp import relabel
+    m = {name: key.name}
+    if isinstance(value, Num):
+        r = Num(P.lift1(lambda x: relabel(x, m, ip.symmetric), value.t), value.kind)
+    elif isinstance(value, (Arr, View)):
+        t, _ = ip.term_of(value, node)
+        r = ip.fresh_array(P.lift1(lambda x: relabel(x, m, ip.symmetric), t))
+    else:
+        raise Unsupported('per-type table whose entries are %r' % (value,), node)
+    cache[key.name] = r
+    return r
+
+
 def dict_getitem(ip, o, args, kwargs, node):
+    ip.touch(o, 'r', node)
     k = _dict_key(args[0], node)
     if k in o.attrs['items']:
         return o.attrs['items'][k]
+    r = _by_label(ip, o, args[0], node)
+    if r is not None:
+        return r
     raise Raised('KeyError', repr(k), ip.loc(node))
 
 
 def dict_setitem(ip, o, args, kwargs, node):
+    ip.touch(o, 'w', node)
     hk = _dict_key(args[0], node)
     o.attrs['items'][hk] = args[1]
+    if isinstance(args[0], Label):
+        # stored under the label of an unfiltered symbolic loop over ALL types: the entry stands for every type
+        full = [c for c in ip.loopctx if args[0].name in c.get('labels', ()) and not c.get('partial') and not c.get('filters')
+                and c.get('kind') in ('types', 'enumerate(types)')]
+        if full and len(ip.loopctx) == 1:
+            o.attrs['by_label'] = {args[0].name: args[1]}
+            o.attrs.pop('by_label_cache', None)
+        else:
+            o.attrs.pop('by_label', None)
     if not isinstance(args[0], Const):
         o.attrs.setdefault('keyvals', {})[hk] = args[0]
     if o.origin is not None:
@@ -1852,6 +2043,7 @@ def dict_setitem(ip, o, args, kwargs, node):
 
 
 def dict_get(ip, o, args, kwargs, node):
+    ip.touch(o, 'r', node)
     k = _dict_key(args[0], node)
     return o.attrs['items'].get(k, args[1] if len(args) > 1 else NONE)
 
